@@ -9,7 +9,8 @@
    what the diff entry od (if any) says about the target entry ot (if any) — Ok None = absent
    afterwards, Err = refused (entry_apply, unfolded by C04_entry_table).
    cfind / cdfind … look a key up in a map (a list with pairwise distinct keys). *)
-From FB Require Import C04.Model C04.Text C04.Theory C04.Theory2 C04.TextTheory C04.TextTheory2 C04.TextTheory3 C04.TextTheory4.
+From FB Require Import C04.Model C04.Text C04.Theory C04.Theory2 C04.TextTheory C04.TextTheory2 C04.TextTheory3 C04.TextTheory4
+  C04.Model2 C04.Equiv C04.Equiv2 C04.Spec C04.Noop.
 
 (* ---------------- apply_diff_option: the complete table ---------------- *)
 Theorem C04_option_ok_iff : forall (d : action str) (t r : option str),
@@ -274,3 +275,228 @@ Theorem C04_examples :
   /\ exists d, diff ex_A ex_B = Ok d /\ wf_diff d = true /\ length (d_classes d) = 4%nat.
 Proof. exact inverse_nonvacuous. Qed.
 Print Assumptions C04_examples.
+
+(* ================= round 4 ================= *)
+
+(* ---------------- mequiv is decided by Quill.Mappings.equivb ---------------- *)
+(* mequiv (lookup-based: same keys, equal values, any order, at every level) and equivb (equal sorted
+   canonical forms) coincide on well-formed trees; so every theorem stated with mequiv is a fact the
+   correspondence run can evaluate (Run.v: result_is on what the implementation answered) *)
+Theorem C04_equivb_iff_mequiv : forall A B, wf A = true -> wf B = true -> (equivb A B = true <-> mequiv A B).
+Proof. exact equivb_iff_mequiv. Qed.
+Print Assumptions C04_equivb_iff_mequiv.
+
+(* one well-formed side suffices to conclude the boolean, and well-formedness travels along mequiv *)
+Theorem C04_mequiv_equivb : forall A B, wf A = true \/ wf B = true -> mequiv A B -> equivb A B = true.
+Proof. exact mequiv_equivb. Qed.
+Print Assumptions C04_mequiv_equivb.
+
+Theorem C04_wf_mequiv : forall r B, mequiv r B -> wf B = true -> wf r = true.
+Proof. exact wf_mequiv. Qed.
+Print Assumptions C04_wf_mequiv.
+
+Theorem C04_mequiv_equivalence :
+  (forall A, wf A = true -> mequiv A A) /\ (forall A B, mequiv A B -> mequiv B A)
+  /\ (forall A B C, mequiv A B -> mequiv B C -> mequiv A C) /\ (forall A, wf A = true -> mequiv A (canon A)).
+Proof. exact (conj mequiv_refl (conj mequiv_sym (conj mequiv_trans canon_mequiv))). Qed.
+Print Assumptions C04_mequiv_equivalence.
+
+(* the judgement of the correspondence run on an answer of the implementation *)
+Theorem C04_result_is : forall r B, wf B = true ->
+  (result_is r B = true <-> exists m, r = Ok m /\ mequiv m B).
+Proof. exact result_is_iff. Qed.
+Print Assumptions C04_result_is.
+
+(* the inverse laws as single booleans *)
+Theorem C04_inverse_law_decidable : forall A B, wf B = true ->
+  (inverse_law_b A B = true <-> inverse_law A B) /\ (text_inverse_law_b A B = true <-> text_inverse_law A B).
+Proof. exact (fun A B H => conj (inverse_law_b_iff A B H) (text_inverse_law_b_iff A B H)). Qed.
+Print Assumptions C04_inverse_law_decidable.
+
+Theorem C04_inverse_computed : forall A B,
+  inverse_hyps_b A B = true -> f3_class A B = false -> inverse_law_b A B = true.
+Proof. exact inverse_b. Qed.
+Print Assumptions C04_inverse_computed.
+
+Theorem C04_text_modulo_top_computed : forall A B,
+  text_hyps_top_b A B = true -> f3_class A B = false -> f4_class A B = false ->
+  exists d d', diff A B = Ok d /\ read (print d) = Ok d'
+               /\ result_is (apply_to d' A (nth 1 (ms_ns A) [])) (set_doc B (ms_doc A)) = true.
+Proof. exact text_modulo_top_computed. Qed.
+Print Assumptions C04_text_modulo_top_computed.
+
+(* ---------------- MappingsDiff::diff is exact (declarative specification, five levels) ---------------- *)
+(* level_spec espec k oa ob ow: the diff has an entry for key k exactly when k is on either side, and the
+   entry satisfies espec for that combination (CA = only in A, CB = only in B, CAB = in both);
+   info_spec: Remove on CA, Add on CB, Edit on CAB - never Add / Remove for a key on both sides;
+   doc_spec: the comment action is from_tuple (old comment) (new comment);
+   cspec / mspec contain the same statement for the maps below them, so nothing is pruned at any level *)
+Theorem C04_diff_exact : forall A B d, wf A = true -> wf B = true -> diff A B = Ok d ->
+  d_info d = ANone /\ d_doc d = from_tuple (ms_doc A) (ms_doc B)
+  /\ NoDup (map cd_name (d_classes d))
+  /\ forall k, level_spec cspec k (cfind k (ms_classes A)) (cfind k (ms_classes B)) (cdfind k (d_classes d)).
+Proof. exact diff_exact. Qed.
+Print Assumptions C04_diff_exact.
+
+(* the vocabulary of C04_diff_exact, unfolded (so the statement above cannot be weakened by redefinition) *)
+Theorem C04_diff_spec_vocabulary :
+  (forall {K T W} (espec : K -> comb T -> W -> Prop) k oa ob ow, level_spec espec k oa ob ow <->
+     match oa, ob, ow with
+     | None, None, None => True
+     | Some x, None, Some w => espec k (CA x) w
+     | None, Some y, Some w => espec k (CB y) w
+     | Some x, Some y, Some w => espec k (CAB x y) w
+     | _, _, _ => False
+     end)
+  /\ (forall c i, info_spec c i <->
+        match c with
+        | CA la => exists a, nth 1 la None = Some a /\ i = ARem a
+        | CB lb => exists b, nth 1 lb None = Some b /\ i = AAdd b
+        | CAB la lb => exists a b, nth 1 la None = Some a /\ nth 1 lb None = Some b /\ i = AEdit a b
+        end)
+  /\ (forall c a, doc_spec c a <->
+        a = from_tuple (match c with CA x => x | CB _ => None | CAB x _ => x end)
+                       (match c with CA _ => None | CB y => y | CAB _ y => y end))
+  /\ (forall k c w, cspec k c w <->
+        cd_name w = k /\ info_spec (comb_map c_names c) (cd_info w) /\ doc_spec (comb_map c_doc c) (cd_doc w)
+        /\ NoDup (map fdkey (cd_fields w))
+        /\ (forall kf, level_spec fspec kf (ffind kf (sideA (comb_map c_fields c))) (ffind kf (sideB (comb_map c_fields c)))
+                                  (fdfind kf (cd_fields w)))
+        /\ NoDup (map mdkey (cd_methods w))
+        /\ (forall km, level_spec mspec km (mfind km (sideA (comb_map c_methods c))) (mfind km (sideB (comb_map c_methods c)))
+                                  (mdfind km (cd_methods w))))
+  /\ (forall k c w, mspec k c w <->
+        mdkey w = k /\ info_spec (comb_map m_names c) (md_info w) /\ doc_spec (comb_map m_doc c) (md_doc w)
+        /\ NoDup (map pd_index (md_params w))
+        /\ forall kp, level_spec pspec kp (pfind kp (sideA (comb_map m_params c))) (pfind kp (sideB (comb_map m_params c)))
+                                 (pdfind kp (md_params w)))
+  /\ (forall k c w, fspec k c w <->
+        fdkey w = k /\ info_spec (comb_map f_names c) (fd_info w) /\ doc_spec (comb_map f_doc c) (fd_doc w))
+  /\ (forall k c w, pspec k c w <->
+        pd_index w = k /\ info_spec (comb_map p_names c) (pd_info w) /\ doc_spec (comb_map p_doc c) (pd_doc w)).
+Proof. exact diff_spec_vocabulary. Qed.
+Print Assumptions C04_diff_spec_vocabulary.
+
+(* nothing is pruned: the diff has an entry for a key exactly when the key is on either side
+   (classes directly; every lower map through level_spec inside cspec / mspec) *)
+Theorem C04_diff_mentions_every_class : forall A B d k,
+  wf A = true -> wf B = true -> diff A B = Ok d ->
+  (cdfind k (d_classes d) = None <-> cfind k (ms_classes A) = None /\ cfind k (ms_classes B) = None).
+Proof. exact diff_mentions_every_class. Qed.
+Print Assumptions C04_diff_mentions_every_class.
+
+Theorem C04_diff_level_mentions : forall {K T W} (espec : K -> comb T -> W -> Prop) k oa ob ow,
+  level_spec espec k oa ob ow -> (ow = None <-> oa = None /\ ob = None).
+Proof. exact @level_spec_mentions. Qed.
+Print Assumptions C04_diff_level_mentions.
+
+(* diff A A is a no-op diff (every action is None or Edit(x,x)); applying it gives A back *)
+Theorem C04_diff_self : forall A, wf A = true -> two_ns A = true -> named A = true ->
+  exists d r, diff A A = Ok d /\ noop_diff d = true
+              /\ apply_to d A (nth 1 (ms_ns A) []) = Ok r /\ mequiv r A /\ equivb r A = true.
+Proof. exact diff_self. Qed.
+Print Assumptions C04_diff_self.
+
+(* a diff without any effective action (every action None or Edit(x,x)) is the identity wherever it
+   applies: the result is the target itself, same entries, same order (no well-formedness needed) *)
+Theorem C04_noop_identity : forall d t nsname r, noop_diff d = true -> apply_to d t nsname = Ok r -> r = t.
+Proof. exact apply_to_noop_identity. Qed.
+Print Assumptions C04_noop_identity.
+
+Theorem C04_diff_self_exact : forall A, wf A = true -> two_ns A = true -> named A = true ->
+  exists d, diff A A = Ok d /\ noop_diff d = true /\ apply_to d A (nth 1 (ms_ns A) []) = Ok A.
+Proof. exact diff_self_exact. Qed.
+Print Assumptions C04_diff_self_exact.
+
+(* ---------------- holder nodes ---------------- *)
+(* at every map level: an entry that is not an addition and whose key the target lacks refuses the whole
+   map, whatever hangs below the entry *)
+Theorem C04_absent_non_add_refused : forall {K D T} (L : level K D T), level_ok L -> forall ds ts k d,
+  NoDup (map (l_dkey L) ds) -> NoDup (map (l_tkey L) ts) ->
+  dfind L k ds = Some d -> (forall b, l_info L d <> AAdd b) -> tfind L k ts = None ->
+  apply_map_L L ds ts = Err.
+Proof. exact @absent_non_add_refused. Qed.
+Print Assumptions C04_absent_non_add_refused.
+
+Theorem C04_holder_class_absent : forall tns d t k cd,
+  ms_ns t <> [] -> wf_diff d = true -> NoDup (map ckey (ms_classes t)) ->
+  cdfind k (d_classes d) = Some cd -> (forall b, cd_info cd <> AAdd b) -> cfind k (ms_classes t) = None ->
+  apply_at tns d t = Err.
+Proof. exact holder_class_absent. Qed.
+Print Assumptions C04_holder_class_absent.
+
+Theorem C04_holder_method_absent : forall tns d t kc cd c km md,
+  ms_ns t <> [] -> wf_diff d = true -> NoDup (map ckey (ms_classes t)) ->
+  cdfind kc (d_classes d) = Some cd -> cfind kc (ms_classes t) = Some c -> cd_info cd = ANone ->
+  NoDup (map fkey (c_fields c)) -> NoDup (map mkey (c_methods c)) ->
+  mdfind km (cd_methods cd) = Some md -> (forall b, md_info md <> AAdd b) -> mfind km (c_methods c) = None ->
+  apply_at tns d t = Err.
+Proof. exact holder_method_absent_top. Qed.
+Print Assumptions C04_holder_method_absent.
+
+Theorem C04_holder_member_absent : forall n tns cd c,
+  n <> O -> wf_cdiff cd = true -> NoDup (map fkey (c_fields c)) -> NoDup (map mkey (c_methods c)) ->
+  (exists k md, mdfind k (cd_methods cd) = Some md /\ (forall b, md_info md <> AAdd b) /\ mfind k (c_methods c) = None)
+  \/ (exists k fd, fdfind k (cd_fields cd) = Some fd /\ (forall b, fd_info fd <> AAdd b) /\ ffind k (c_fields c) = None) ->
+  apply_class n tns cd c = Err.
+Proof. exact holder_member_absent. Qed.
+Print Assumptions C04_holder_member_absent.
+
+Theorem C04_holder_parameter_absent : forall n tns md m,
+  wf_mdiff md = true -> NoDup (map pkey (m_params m)) ->
+  (exists k pd, pdfind k (md_params md) = Some pd /\ (forall b, pd_info pd <> AAdd b) /\ pfind k (m_params m) = None) ->
+  apply_meth n tns md m = Err.
+Proof. exact holder_param_absent. Qed.
+Print Assumptions C04_holder_parameter_absent.
+
+(* ---------------- Action helpers; apply_diff_option is invertible and determines its action ---------------- *)
+Theorem C04_action_helpers : forall (a : action str),
+  from_tuple (fst (to_tuple a)) (snd (to_tuple a)) = a
+  /\ flip a = from_tuple (snd (to_tuple a)) (fst (to_tuple a)) /\ flip (flip a) = a
+  /\ is_diff str_eqb (flip a) = is_diff str_eqb a
+  /\ (is_diff str_eqb a = false <-> a = ANone \/ exists x, a = AEdit x x)
+  /\ (is_diff str_eqb a = false -> norm_action a = ANone).
+Proof.
+  exact (fun a => conj (from_to_tuple a) (conj (flip_tuple a) (conj (flip_flip a) (conj (is_diff_flip a)
+                  (conj (is_diff_false_iff a) (is_diff_false_norm a)))))).
+Qed.
+Print Assumptions C04_action_helpers.
+
+Theorem C04_to_from_tuple : forall (x y : option str), to_tuple (from_tuple x y) = (x, y).
+Proof. exact to_from_tuple. Qed.
+Print Assumptions C04_to_from_tuple.
+
+Theorem C04_apply_option_flip : forall (d : action str) (t r : option str),
+  apply_option str_eqb d t = Ok r -> apply_option str_eqb (flip d) r = Ok t.
+Proof. exact apply_option_flip. Qed.
+Print Assumptions C04_apply_option_flip.
+
+Theorem C04_apply_option_noop : forall (d : action str) (t r : option str),
+  is_diff str_eqb d = false -> apply_option str_eqb d t = Ok r -> r = t.
+Proof. exact apply_option_noop. Qed.
+Print Assumptions C04_apply_option_noop.
+
+(* uniqueness at the value level: the action that leads from t to r is from_tuple t r, up to no-ops *)
+Theorem C04_apply_option_unique : forall (d : action str) (t r : option str),
+  apply_option str_eqb d t = Ok r -> is_diff str_eqb d = true -> d = from_tuple t r.
+Proof. exact apply_option_unique. Qed.
+Print Assumptions C04_apply_option_unique.
+
+Theorem C04_apply_option_between : forall (t r : option str), apply_option str_eqb (from_tuple t r) t = Ok r.
+Proof. exact apply_option_between. Qed.
+Print Assumptions C04_apply_option_between.
+
+(* non-vacuity of the round-4 hypotheses: a well-formed named tree whose self-diff has three class entries;
+   a reordered copy that is a different term but equivb / mequiv; a holder class absent from the target with a
+   method addition below it (refused); a pair on which the computed inverse laws are true *)
+Theorem C04_round4_examples :
+  (wf ex_A = true /\ two_ns ex_A = true /\ named ex_A = true)
+  /\ (exists d, diff ex_A ex_A = Ok d /\ length (d_classes d) = 3%nat /\ d <> mkDiff ANone ANone [])
+  /\ (canon ex_B <> ex_B /\ wf (canon ex_B) = true /\ equivb (canon ex_B) ex_B = true /\ mequiv (canon ex_B) ex_B)
+  /\ (wf_diff holder_d = true /\ NoDup (map ckey (ms_classes f3_A))
+      /\ (exists cd, cdfind [120] (d_classes holder_d) = Some cd /\ cd_info cd = ANone /\ cd_methods cd <> [])
+      /\ cfind [120] (ms_classes f3_A) = None /\ apply_to holder_d f3_A [110] = Err)
+  /\ (exists A B, inverse_hyps_b A B = true /\ f3_class A B = false /\ inverse_law_b A B = true
+                  /\ text_hyps_top_b A B = true /\ f4_class A B = false /\ text_inverse_law_b A B = true).
+Proof. exact round4_nonvacuous. Qed.
+Print Assumptions C04_round4_examples.
